@@ -13,6 +13,9 @@ L1 (in-process, catch_unwind + watchdog; outcomes line / PANIC / HANG / CRASH):
   L1d token lists (every untagged list of <= 4 tokens over `< <<< > >> 2>&1 a | &`, quoted mixes, random longer) into
       tokens_to_redirections / Command::from_tokens, and the same words as lines with blanks + multi-byte text
       around pipes through the `line` op.
+  L1e alias expansion: the real shell::expand_alias on short lines under alias tables whose values tokenize to 0, 1,
+      2+ words (blanks, a comment, an operator, a lone quote ...) = Model/AliasSites.v (explicit Vec::remove / insert
+      sites); the same tables through the `line` op; L2 scripts that define and use such aliases, then the sentinel.
   L1c `hlr`: find_token_range_heuristic at ARBITRARY byte offsets (inside characters, past the
       end) and arbitrary tokens: the model's Panic must coincide with the implementation's.
 L2 (real binary, watchdog): A14 strings up to length 2 + 1500 of length 3 (thorough: all up to 4) and grammar/mutation
@@ -33,7 +36,7 @@ BINS = ["c05"]
 NEEDS_CICADA = True
 ALLOWED_AXIOMS = []
 PINNED = ["C05_highlight_total", "C05_highlight_line", "C05_range_no_panic", "C05_slice_exact", "C05_word_start_total",
-          "C05_from_tokens_total", "C05_plan_total", "C05_tokenizer_lookups", "C05_full", "C05_regression",
+          "C05_from_tokens_total", "C05_plan_total", "C05_tokenizer_lookups", "C05_alias_total", "C05_full", "C05_regression",
           "C05_fix_conservative", "C05_first_word_exact", "C05_shell_panic_iff", "C05_head_word",
           "C05_never_empty_with_head_words"]
 TRUSTED = [
@@ -130,13 +133,13 @@ def parse_tokens(s):
     return out
 
 
-def confirm_abnormal(impl, lines, io, op, tag):
+def confirm_abnormal(impl, cases, io, tag):
     """HANG / CRASH / NOT-RUN of a sharded run are re-run alone with a long watchdog: on a loaded machine the
-    2.5 s watchdog can fire on a healthy case. (PANIC is deterministic and kept.)"""
+    2.5 s watchdog can fire on a healthy case. (PANIC is deterministic and kept.) cases = the case-file lines."""
     idx = [i for i, o in enumerate(io) if o in ("HANG", "CRASH", "NOT-RUN")]
     if not idx or len(idx) > 400:
         return io
-    p = C.write_cases("c05_confirm_%s.txt" % tag, [C.case(op, lines[i]) for i in idx])
+    p = C.write_cases("c05_confirm_%s.txt" % tag, [cases[i] for i in idx])
     again = C.run_impl(impl, p, len(idx), shards=min(4, len(idx)), env={"HX_CASE_TIMEOUT_MS": "10000"})
     io = list(io)
     for i, o in zip(idx, again):
@@ -147,16 +150,22 @@ def confirm_abnormal(impl, lines, io, op, tag):
 SEG = re.compile(r"^S tok=(.*) arith=([01]) exp=(.*) plan=(.*) fw=(\S+)$")
 
 
-def layer1a(ctx, res, vv, lines, tag):
+def layer1a(ctx, res, vv, lines, tag, tables=None):
+    """tables (optional): per line, the alias table [name, value, name, value ...] of the shell that plans it"""
     model, impl = ctx.model["C05"], ctx.bins["c05"]
-    p = C.write_cases("c05_line_%s.txt" % tag, [C.case("line", s) for s in lines])
+    lcases = [C.case("line", s, *(tables[i] if tables else [])) for i, s in enumerate(lines)]
+    p = C.write_cases("c05_line_%s.txt" % tag, lcases)
     pf = C.write_cases("c05_front_%s.txt" % tag, [C.case("front", s) for s in lines])
     io = C.run_impl(impl, p, len(lines), env={"HX_CASE_TIMEOUT_MS": "2500"})
-    io = confirm_abnormal(impl, lines, io, "line", tag)
+    io = confirm_abnormal(impl, lcases, io, tag)
+    if tables:
+        shown = ["%r under aliases %r" % (s, dict(zip(t[0::2], t[1::2]))) for s, t in zip(lines, tables)]
+    else:
+        shown = lines
     mf = C.run_model(model, pf)
     backs, where = [], []
     stats = {}
-    for ix, (s, o, m) in enumerate(zip(lines, io, mf)):
+    for ix, (s, o, m) in enumerate(zip(shown, io, mf)):
         if o in ("PANIC", "HANG", "CRASH", "NOT-RUN"):
             stats[o] = stats.get(o, 0) + 1
             vv.foreign("L1a", s, o, o)
@@ -185,7 +194,7 @@ def layer1a(ctx, res, vv, lines, tag):
     pb = C.write_cases("c05_back_%s.txt" % tag, backs)
     mb = C.run_model(model, pb) if backs else []
     for (ix, k, mm), m in zip(where, mb):
-        s = lines[ix]
+        s = shown[ix]
         got = "plan=%s fw=%s" % (mm.group(4), mm.group(5))
         mfw = m.rsplit(" fw=", 1)[1]
         ifw = mm.group(5)
@@ -322,6 +331,65 @@ def layer1d(ctx, res, vv):
     layer1a(ctx, res, vv, lines, "TOK")
 
 
+ALIAS_VALUES = ["", "  ", "\t", "#c", "# a b", "b", "b c", "b #c", "|", "| b", "b |", "'", "\"", "'q r'", "a", "1 a", "> f",
+                "\\", "é  ", "$(", "&", ";"]
+
+
+def alias_tables():
+    out = []
+    for v in ALIAS_VALUES:
+        out.append(["a", v, "1", "x y"])
+        out.append(["a", "b", "1", v])
+    return out
+
+
+def layer1e(ctx, res, vv):
+    """alias expansion: the real expand_alias on every short line under alias tables whose values tokenize to 0, 1,
+    2+ words (only blanks, a comment, an operator, a lone quote, ...) = the model with explicit remove / insert
+    sites (theorem C05_alias_total); and the same tables through the whole `line` pipeline."""
+    model, impl = ctx.model["C05"], ctx.bins["c05"]
+    tabs = alias_tables()
+    if ctx.thorough:
+        short = all_strings(A14, 3) + [x for x in all_strings(A14, 4) if len(x) == 4 and ("a" in x or "1" in x)]
+    else:
+        short = all_strings(A14, 2) + [x for x in all_strings(A14, 3) if len(x) == 3 and ("a" in x or "1" in x)]
+    target = ["a", "1", "x | a", "a | 1", "a;1", "a && 1", "xargs a", "x | xargs 1", "1 a", "'a'", "a a", "a|a|a", "\\a", "a #x",
+              "x |a", "a > f", "a=1 a", "a &"]
+    lines = short + target
+    cases, desc = [], []
+    for t in tabs:
+        for l in lines:
+            cases.append(C.case("alias", l, *t))
+            desc.append((l, t))
+    p = C.write_cases("c05_alias.txt", cases)
+    mo, io = C.run_model(model, p), C.run_impl(impl, p, len(cases))
+    n_empty = 0
+    for (l, t), a, b in zip(desc, mo, io):
+        if a == b:
+            if a == "[]" and l.strip():
+                n_empty += 1
+                res.nontrivial("alias-to-nothing:%r%r" % (l, t))
+            continue
+        inp = "%r under aliases %r" % (l, dict(zip(t[0::2], t[1::2])))
+        if b in ("PANIC", "HANG", "CRASH", "NOT-RUN") or a == "PANIC":
+            vv.violate("L1e", kind="oracle", function="shell::expand_alias", input=inp, model=a, observed=b, failing_input=True,
+                       note="expand_alias %s; theorem C05_alias_total says the modelled code never removes / inserts out of range, "
+                            "whatever number of words the alias value tokenizes to" % b)
+        else:
+            vv.violate("L1e", kind="correspondence", function="shell::expand_alias", input=inp, model=a, impl=b,
+                       failing_input=False, note="expand_alias differs from Model/Alias.v + Model/AliasSites.v")
+    res.count("L1e_expand_alias", len(cases))
+    res.extra["l1e_lines_expanded_to_nothing"] = n_empty
+    # whole pipeline under the same tables
+    plines, ptabs = [], []
+    for t in tabs:
+        for l in all_strings(A14, 2 if not ctx.thorough else 3) + target:
+            if "a" in l or "1" in l:
+                plines.append(l)
+                ptabs.append(t)
+    layer1a(ctx, res, vv, plines, "ALIAS", tables=ptabs)
+
+
 # ------------------------------------------------------------------ L2
 WORDS = ["echo", "true", "false", "a", "b", "cd", "export", "alias", "unalias", "set", "unset", "jobs", "x=1", "A=b",
          "$A", "${A}", "$?", "$$", "~", "*", "?", "[a]", "{a,b}", "{1..3}", "'q r'", '"q $A r"', "`echo a`", "$(echo a)",
@@ -367,12 +435,12 @@ def gen_l2_lines(ctx, n):
     return out
 
 
-def run_l2_one(ctx, work, ix, line):
+def run_l2_one(ctx, work, ix, line, script_text=None):
     d = tempfile.mkdtemp(prefix="l2_", dir=work)
     res = {}
     script = os.path.join(d, "s.sh")     # NOT in the cwd of the runs: a line like `a > *` would clobber it
     with open(script, "w") as f:
-        f.write(line + "\necho C05-SENTINEL\n")
+        f.write((script_text if script_text is not None else line) + "\necho C05-SENTINEL\n")
     for mode, argv in (("c", [ctx.cicada, "-c", line]), ("script", [ctx.cicada, script])):
         cwd = os.path.join(d, "cwd_" + mode)
         os.makedirs(cwd)
@@ -441,7 +509,7 @@ def layer2(ctx, res, vv, work):
     os.makedirs(cwd_pred)
     os.chdir(cwd_pred)
     io = C.run_impl(impl, pl, len(lines), env={"HX_CASE_TIMEOUT_MS": "3000", "HOME": cwd_pred, "PATH": "/usr/bin:/bin"})
-    io = confirm_abnormal(impl, lines, io, "line", "l2")
+    io = confirm_abnormal(impl, [C.case("line", x) for x in lines], io, "l2")
     os.chdir(work)
     tt["inprocess"] = round(time.time() - t1, 1); t1 = time.time()
     with ThreadPoolExecutor(max_workers=C.NCPU) as ex:
@@ -467,6 +535,31 @@ def layer2(ctx, res, vv, work):
     res.count("L2_cicada_c_and_script", len(lines))
     res.extra["l2_outcomes"] = stats
     res.sample({"layer": "L2", "input": rnd[0], "result": outs[len(corpus) + len(short)]})
+
+
+def layer2_alias(ctx, res, vv, work):
+    """scripts (and -c lines) that DEFINE an alias whose value tokenizes to 0 / 1 / 2+ words and then use it as first
+    word, after a pipe, after `;`, under xargs; then the sentinel"""
+    vals = ["  ", "\t ", "#disabled for now", "# c", "b", "echo q", "echo q #c", "|", "> f", "echo q |", "true", "é  "]
+    uses = ["zz", "echo x | zz", "true; zz", "zz | cat", "echo x | xargs zz", "zz && echo y", "echo x | zz | cat", "zz zz"]
+    jobs = []
+    for v in vals:
+        for u in uses:
+            jobs.append(("alias zz='%s'; %s" % (v, u), "alias zz='%s'\n%s" % (v, u)))
+    with ThreadPoolExecutor(max_workers=C.NCPU) as ex:
+        outs = list(ex.map(lambda a: run_l2_one(ctx, work, a[0], a[1][0], a[1][1]), enumerate(jobs)))
+    for (cl, sc), r in zip(jobs, outs):
+        res.nontrivial("l2alias:" + cl)
+        j = judge_l2("", r)
+        if j is None:
+            continue
+        mode, detail = j
+        if mode == "NO-SENTINEL":
+            vv.violate("L2", kind="oracle", input=sc.replace("\n", "<newline>"), observed=repr(r), failing_input=True,
+                       note="after defining and using this alias the script did not reach its next line (%s)" % detail)
+        else:
+            vv.foreign("L2", cl, mode, detail + " " + repr(r))
+    res.count("L2_alias_scripts", len(jobs))
 
 
 # ------------------------------------------------------------------ L3 pty
@@ -693,12 +786,15 @@ def run(ctx, res):
         os.makedirs(cwd_d)
         os.chdir(cwd_d)
         layer1d(ctx, res, vv)
-        os.chdir(work)
         tm["L1d"] = round(time.time() - t0, 1); t0 = time.time()
+        layer1e(ctx, res, vv)
+        os.chdir(work)
+        tm["L1e"] = round(time.time() - t0, 1); t0 = time.time()
         for k, v in env0.items():
             if v is not None:
                 os.environ[k] = v
         layer2(ctx, res, vv, work)
+        layer2_alias(ctx, res, vv, work)
         tm["L2"] = round(time.time() - t0, 1); t0 = time.time()
         layer3(ctx, res, vv, work)
         tm["L3"] = round(time.time() - t0, 1)
